@@ -524,4 +524,68 @@ theorem delFold_spec (i n : Nat) (hi : i < n) : ∀ (cols : List Slice) (h : Cel
       rw [hframe b (fun x hx => hb x (List.mem_cons_of_mem _ hx)),
           r5 b (Ne.symm (hb c List.mem_cons_self))]
 
+/-! ### Clone of a column-stored alignment -/
+
+/-- the loop of `Clone`: every column copied into a new backing array -/
+def cloneColsFold (cx : Ctx) (cols : List Slice) (acc : Cells × List Slice) : Cells × List Slice :=
+  cols.foldl (fun (acc : Cells × List Slice) c =>
+    ((acc.1.ofList (acc.1.read c) (cx.grow 0 c.len) zeroQL).1,
+     acc.2 ++ [(acc.1.ofList (acc.1.read c) (cx.grow 0 c.len) zeroQL).2])) acc
+
+theorem Aln.clone_eq (cx : Ctx) (h : Cells) (a : Aln) :
+    a.clone cx h = ((cloneColsFold cx a.cols (h, [])).1, { a with cols := (cloneColsFold cx a.cols (h, [])).2 }) := rfl
+
+theorem cloneColsFold_spec (cx : Ctx) (n : Nat) : ∀ (cols : List Slice) (h : Cells) (acc : List Slice),
+    (∀ c ∈ cols, ColValid h n c) →
+    ∃ news, (cloneColsFold cx cols (h, acc)).2 = acc ++ news ∧
+      All2 (fun c c' => (cloneColsFold cx cols (h, acc)).1.read c' = h.read c ∧
+          h.arrays.length ≤ c'.arr ∧ ColValid (cloneColsFold cx cols (h, acc)).1 n c') cols news ∧
+      news.Pairwise (fun x y => x.arr ≠ y.arr) ∧
+      h.arrays.length ≤ (cloneColsFold cx cols (h, acc)).1.arrays.length ∧
+      (∀ b, b < h.arrays.length → (cloneColsFold cx cols (h, acc)).1.arr b = h.arr b) := by
+  intro cols
+  induction cols with
+  | nil => intro h acc _; exact ⟨[], by simp [cloneColsFold], .nil, List.Pairwise.nil, Nat.le_refl _, fun _ _ => rfl⟩
+  | cons c cs ih =>
+    intro h acc hv
+    have hvc := hv c List.mem_cons_self
+    have hread : (h.ofList (h.read c) (cx.grow 0 c.len) zeroQL).1.read (h.ofList (h.read c) (cx.grow 0 c.len) zeroQL).2
+        = h.read c := Heap.read_ofList _ _ _ _
+    have harr : (h.ofList (h.read c) (cx.grow 0 c.len) zeroQL).2.arr = h.arrays.length := rfl
+    have hsize : (h.ofList (h.read c) (cx.grow 0 c.len) zeroQL).1.arrays.length = h.arrays.length + 1 :=
+      Heap.size_ofList _ _ _ _
+    have hold : ∀ b, b < h.arrays.length → (h.ofList (h.read c) (cx.grow 0 c.len) zeroQL).1.arr b = h.arr b :=
+      fun b hb => Heap.arr_alloc_old _ _ _ hb
+    have hnewvalid : ColValid (h.ofList (h.read c) (cx.grow 0 c.len) zeroQL).1 n
+        (h.ofList (h.read c) (cx.grow 0 c.len) zeroQL).2 := by
+      refine ⟨by rw [harr, hsize]; omega, ?_, ?_⟩
+      · rw [show (h.ofList (h.read c) (cx.grow 0 c.len) zeroQL).2.arr
+            = (h.alloc ((h.read c) ++ List.replicate (max (h.read c).length (cx.grow 0 c.len) - (h.read c).length) zeroQL)).2 from rfl]
+        simp only [Heap.ofList]
+        rw [Heap.arr_alloc_new]
+        simp only [List.length_append, List.length_replicate]
+        omega
+      · simp only [Heap.ofList]; exact hvc.length_read
+    have hv' : ∀ x ∈ cs, ColValid (h.ofList (h.read c) (cx.grow 0 c.len) zeroQL).1 n x := fun x hx => by
+      have hxv := hv x (List.mem_cons_of_mem _ hx)
+      exact ⟨by rw [hsize]; have := hxv.1; omega, by rw [hold _ hxv.1]; exact hxv.2.1, hxv.2.2⟩
+    obtain ⟨news, h2, hall, hpw, hsz, hfr⟩ := ih _ (acc ++ [(h.ofList (h.read c) (cx.grow 0 c.len) zeroQL).2]) hv'
+    have hfold : cloneColsFold cx (c :: cs) (h, acc) = cloneColsFold cx cs
+        ((h.ofList (h.read c) (cx.grow 0 c.len) zeroQL).1, acc ++ [(h.ofList (h.read c) (cx.grow 0 c.len) zeroQL).2]) := rfl
+    rw [hfold]
+    have hkeep := hfr (h.ofList (h.read c) (cx.grow 0 c.len) zeroQL).2.arr (by rw [harr, hsize]; omega)
+    refine ⟨(h.ofList (h.read c) (cx.grow 0 c.len) zeroQL).2 :: news, by rw [h2]; simp,
+      .cons ⟨?_, by rw [harr]; omega, ?_⟩ ?_, ?_, by omega, ?_⟩
+    · rw [read_congr_arr _ _ _ hkeep]; exact hread
+    · exact ⟨by have := hnewvalid.1; omega, by rw [hkeep]; exact hnewvalid.2.1, hnewvalid.2.2⟩
+    · refine hall.imp_mem fun x x' hx hxx => ⟨?_, by have := hxx.2.1; omega, hxx.2.2⟩
+      rw [hxx.1, read_congr_arr _ _ _ (hold _ (hv x (List.mem_cons_of_mem _ hx)).1)]
+    · refine List.pairwise_cons.mpr ⟨?_, hpw⟩
+      intro x hx
+      obtain ⟨y, _, hr⟩ := hall.exists_left x hx
+      have := hr.2.1
+      rw [harr]; omega
+    · intro b hb
+      rw [hfr b (by omega), hold b hb]
+
 end Biogo.Containers
